@@ -218,9 +218,11 @@ def import_from_sympy_latex(expr_string: str,
         terms.append(expr_string[term_start_idx:])  # append last term
         return terms
 
-    def import_term(term_string: str) -> list[str]:
-        from sympy import Mul
-
+    def import_term(term_string: str) -> list:
+        # returns the objects (factors) of the term as list. The complete
+        # term (numerator and denominator) has to be built in a single step
+        # to avoid that sympy distributes a numerical prefactor over a
+        # bracket, e.g., 1 / (2 * (a + b)) -> 1 / (2a + 2b)
         stack: list[str] = []
         objects: list[str] = []
 
@@ -235,14 +237,14 @@ def import_from_sympy_latex(expr_string: str,
             # in case we have a denom of the form:
             # 2a+2b+4c and not 2 * (a+b+2c)
             elif char in ['+', '-'] and not stack:
-                return import_from_sympy_latex(
+                return [import_from_sympy_latex(
                     term_string, convert_default_names=convert_default_names
-                ).sympy
+                ).sympy]
             elif char == " " and not stack and i != obj_start_idx:
                 objects.append(term_string[obj_start_idx:i])
                 obj_start_idx = i + 1
         objects.append(term_string[obj_start_idx:])  # last object
-        return Mul(*(import_obj(o) for o in objects))
+        return [import_obj(o) for o in objects]
 
     expr_string = expr_string.strip()
     if not expr_string:
@@ -259,7 +261,7 @@ def import_from_sympy_latex(expr_string: str,
             raise ValueError(f"Found invalid sign {sign} in term {term}")
         term = term[1:].strip()
 
-        sympy_term = -1 if sign == '-' else +1
+        factors = [S.NegativeOne if sign == '-' else S.One]
 
         if term.startswith("\\frac"):  # fraction
             # remove frac layout and split: \\frac{...}{...}
@@ -267,9 +269,10 @@ def import_from_sympy_latex(expr_string: str,
         else:  # no denominator
             num, denom = term, None
 
-        sympy_term *= import_term(num)
+        factors.extend(import_term(num))
         if denom is not None:
-            sympy_term /= import_term(denom)
+            factors.extend(Pow(o, -1) for o in import_term(denom))
+        sympy_term = Mul(*factors)
         sympy_expr += sympy_term
     return Expr(sympy_expr)
 
